@@ -34,6 +34,10 @@ def check(ctx: Ctx):
     from ..rules import collections as _colp
 
     _support.compose(ctx, _colp.check_pairwise, keep=("SURFACE", "SYMM"))
+    # merging members is one of the operations: both settings of `inplace` go through the class' own merge kernel on every path
+    from . import c11 as _c11
+
+    _support.compose(ctx, _c11.check_merge_dispatch, keep=("SIBLING", "EFFECT"))
     ctx.expect("SURFACE", 1)
     m = ctx.model
     ctx.explain(
